@@ -10,6 +10,7 @@ import (
 	"io"
 
 	"go.dedis.ch/kyber/v4"
+	"go.dedis.ch/kyber/v4/share"
 	pdkg "go.dedis.ch/kyber/v4/share/dkg/pedersen"
 	rdkg "go.dedis.ch/kyber/v4/share/dkg/rabin"
 	"go.dedis.ch/kyber/v4/sign/dss"
@@ -148,4 +149,85 @@ func pedersenDKG(suite fullSuite, secs []kyber.Scalar, pubs []kyber.Point, t int
 		out[i] = res.Key
 	}
 	return out, nil
+}
+
+// pedersenReshare runs the Pedersen resharing protocol among the same nodes:
+// same distributed secret and public key, a new polynomial (threshold newT)
+// and new shares.
+func pedersenReshare(suite fullSuite, secs []kyber.Scalar, pubs []kyber.Point, old []dss.DistKeyShare, oldT, newT int, nonce []byte, fast bool) ([]dss.DistKeyShare, error) {
+	n := len(secs)
+	nodes := make([]pdkg.Node, n)
+	for i := range nodes {
+		nodes[i] = pdkg.Node{Index: uint32(i), Public: pubs[i]}
+	}
+	gens := make([]*pdkg.DistKeyGenerator, n)
+	for i := range gens {
+		c := &pdkg.Config{
+			Suite:        suite,
+			Longterm:     secs[i],
+			OldNodes:     nodes,
+			NewNodes:     nodes,
+			Share:        &pdkg.DistKeyShare{Commits: old[i].Commitments(), Share: old[i].PriShare()},
+			Threshold:    uint32(newT),
+			OldThreshold: uint32(oldT),
+			Nonce:        nonce,
+			Auth:         schnorr.NewScheme(suite),
+			FastSync:     fast,
+		}
+		g, err := pdkg.NewDistKeyHandler(c)
+		if err != nil {
+			return nil, fmt.Errorf("pedersen reshare NewDistKeyHandler: %w", err)
+		}
+		gens[i] = g
+	}
+	var deals []*pdkg.DealBundle
+	for _, g := range gens {
+		d, err := g.Deals()
+		if err != nil {
+			return nil, fmt.Errorf("pedersen reshare Deals: %w", err)
+		}
+		deals = append(deals, d)
+	}
+	var resps []*pdkg.ResponseBundle
+	for _, g := range gens {
+		r, err := g.ProcessDeals(deals)
+		if err != nil {
+			return nil, fmt.Errorf("pedersen reshare ProcessDeals: %w", err)
+		}
+		if r != nil {
+			resps = append(resps, r)
+		}
+	}
+	out := make([]dss.DistKeyShare, n)
+	for i, g := range gens {
+		res, just, err := g.ProcessResponses(resps)
+		if err != nil {
+			return nil, fmt.Errorf("pedersen reshare ProcessResponses: %w", err)
+		}
+		if res == nil || just != nil {
+			return nil, fmt.Errorf("pedersen reshare: honest run needs justifications")
+		}
+		out[i] = res.Key
+	}
+	return out, nil
+}
+
+// synthKey is a distributed key share built directly from a polynomial: another
+// sharing of a given secret (what a resharing / refresh produces).
+type synthKey struct {
+	s *share.PriShare
+	c []kyber.Point
+}
+
+func (k *synthKey) PriShare() *share.PriShare  { return k.s }
+func (k *synthKey) Commitments() []kyber.Point { return k.c }
+
+func synthSharing(suite fullSuite, secret kyber.Scalar, t, n int) []dss.DistKeyShare {
+	poly := share.NewPriPoly(suite, uint32(t), secret, suite.RandomStream())
+	_, commits := poly.Commit(nil).Info()
+	out := make([]dss.DistKeyShare, n)
+	for i, s := range poly.Shares(uint32(n)) {
+		out[i] = &synthKey{s: s, c: commits}
+	}
+	return out
 }
